@@ -419,6 +419,8 @@ def c13(res, tier, rng, wd):
                   tier == "thorough")
     scs = e2.gen_c13(rng, tier == "thorough")
     run_e2(res, "C13", scs, wd, "c13")
+    # black-box: the TLS channel against a peer that accepts TCP and never starts the handshake
+    run_e4(res, "C13", e4.gen_tls_client_stall(), wd, "c13tlsstall")
     res.assumptions = E2_ASSUME + ["the production TcpChannelTask obtains its connections from the verif-hooks connector "
                                    "(same select! against fail_requests); real sockets / serial ports are exercised by the black-box slice"]
     return res.finish(rule="every command / fault (submit, enable, disable, decode, shutdown, drop handles, abort, connect ok / "
@@ -631,6 +633,10 @@ def c09(res, tier, rng, wd):
                   ["NeverBelowMin", "OnlyAuthenticated", "AlwaysWhenValidAndAtOrAboveMin", "RoleIsTheSingleExtension"], workers=2)
     scs = e4.gen_c09_server(rng, thorough)
     run_e4(res, "C09", scs, wd, "c09server")
+    cl = e4.gen_c09_client(rng, thorough)
+    for i, sc_ in enumerate(cl):
+        sc_["id"] = 5000 + i
+    run_e4(res, "C09", cl, wd, "c09client")
     res.assumptions = E4_ASSUME + ["rustls / webpki / ring internals are trusted: checked is rodbus's configuration of them and the admission outcome",
                                    "fixture certificates are pre-generated (fixtures/gen_certs.sh) with the facts tabulated in TlsAdmission!CertInfo",
                                    "the harness peer is built directly on tokio-rustls with pinned protocol versions"]
